@@ -33,6 +33,11 @@ def odd_plants(rng, hist_dirs=("a.task.100", "pk/b.task.101")):
         if rng.random() < 0.2:
             out.append({"path": "cond-out/%s/x.task.7/inner.txt" % vd, "kind": "file", "content": "look-alike\n",
                         "only_if": "cond-out/%s" % vd})
+        if rng.random() < 0.35:
+            # names that archivers, editors and file systems treat specially - results all the same
+            for nm in rng.sample([".nfs0001", ".nfs-trace/t.txt", "data/.nfsstat.json", ".gitignore", "core", "-dash.txt", "._meta", "#tmp#",
+                                  "a~", ".hidden/.deeper/f", "CVS/Entries", ".svn/x", "name with  spaces .txt", "*.glob[1]?"], 3):
+                out.append({"path": "cond-out/%s/%s" % (vd, nm), "kind": "file", "content": "kept\n", "only_if": "cond-out/%s" % vd})
     return out
 
 
